@@ -150,6 +150,13 @@ def decline (c : Client) (m : Invite) : Client × Res :=
           | none => ({ c with store := s1 }, .err .group)
           | some s2 => ({ c with store := s2 }, .done)
 
+/-- the order of steps the three functions above transcribe (codes as in `tools/gen_model.py`:
+    0 validate, 1 dedup lookup, 2 preview, 3 save_group, 4 replace_group_relays, 5 rumor-id check,
+    6 save_processed_welcome, 7 save_welcome, 8 into_group, 9 get_group) -/
+def processOrder : List Nat := [0, 1, 2, 3, 4, 5, 6, 7]
+def acceptOrder : List Nat := [2, 8, 7, 9, 3, 4]
+def declineOrder : List Nat := [2, 7, 9, 3]
+
 inductive Op where
   | process (wrapper : Nat) (m : Invite)
   | accept (m : Invite)
